@@ -11,6 +11,7 @@ Clause(e) ==
   IF e.raised THEN
        (IF ~MayRaise(table, e.reqs) THEN "satisfiable_request_refused"
         ELSE IF e.exc_type = "StopIteration" \/ e.exc_len = 0 THEN "error_not_descriptive" ELSE "")
+  ELSE IF SizeFaults(e.sizes) # "" THEN SizeFaults(e.sizes)      \* (decided first: a sizing fault is not hidden behind the next clause)
   ELSE IF must THEN "unsatisfiable_request_compiled"
   ELSE LET d == CompileDiff(e.P0, e.P1, e.domain, Range(e.mapped), table, e.reqs) IN
        IF d # "" THEN d
